@@ -395,25 +395,41 @@ func StripDetail(m string) string {
 	return m
 }
 
-// Main is the entry point shared by the concurrent drivers. build returns the
-// plan for a tier. extra, if not nil, runs additional (sequential) parts and
-// merges into the reporter before evidence is written; it returns extra
-// coverage keys.
-func Main(id string, level string, build func(tier string) Plan, extra func(tier string, rep *kf.Reporter) (map[string]any, error)) {
-	tier := flag.String("tier", "quick", "")
-	_ = flag.String("id", id, "")
-	shard := flag.String("shard", "", "i/n (worker mode)")
-	out := flag.String("out", "", "")
-	only := flag.String("only", "", "substring filter on program text")
-	flag.Parse()
+// argValue returns the value following flag name in os.Args ("" if absent).
+func argValue(name string) string {
+	for i, a := range os.Args {
+		if a == name && i+1 < len(os.Args) {
+			return os.Args[i+1]
+		}
 
-	pl := build(*tier)
+		if strings.HasPrefix(a, name+"=") {
+			return strings.TrimPrefix(a, name+"=")
+		}
+	}
 
-	if *only != "" {
+	return ""
+}
+
+// MaybeShard turns the process into a shard worker when it was started with
+// -shard i/n (by RunPlan); it never returns in that case. Call it first in main.
+func MaybeShard(build func(tier string) Plan) {
+	sh := argValue("-shard")
+	if sh == "" {
+		return
+	}
+
+	tier := argValue("-tier")
+	if tier == "" {
+		tier = "quick"
+	}
+
+	pl := build(tier)
+
+	if only := argValue("-only"); only != "" {
 		var ps []Prog
 
 		for _, p := range pl.Programs {
-			if strings.Contains(p.String(), *only) {
+			if strings.Contains(p.String(), only) {
 				ps = append(ps, p)
 			}
 		}
@@ -421,52 +437,36 @@ func Main(id string, level string, build func(tier string) Plan, extra func(tier
 		pl.Programs = ps
 	}
 
-	budget := 0
-	if b, err := strconv.Atoi(os.Getenv("VERIF_BUDGET_S")); err == nil {
-		budget = b
-	} else if *tier == "thorough" {
-		budget = 1200
-	} else {
-		budget = 240
+	var i, n int
+
+	fmt.Sscanf(sh, "%d/%d", &i, &n)
+
+	dl, _ := strconv.ParseInt(os.Getenv("VERIF_DEADLINE_UNIX"), 10, 64)
+
+	var deadline time.Time
+	if dl > 0 {
+		deadline = time.Unix(dl, 0)
 	}
 
-	if *shard != "" {
-		var i, n int
+	out := argValue("-out")
+	runShard(pl, i, n, out, out+".cur", deadline)
+	os.Exit(0)
+}
 
-		fmt.Sscanf(*shard, "%d/%d", &i, &n)
+// Totals of a plan run.
+type Totals = shardOut
 
-		dl, _ := strconv.ParseInt(os.Getenv("VERIF_DEADLINE_UNIX"), 10, 64)
-
-		var deadline time.Time
-		if dl > 0 {
-			deadline = time.Unix(dl, 0)
-		}
-
-		runShard(pl, i, n, *out, *out+".cur", deadline)
-
-		return
-	}
-
-	verifDir := os.Getenv("VERIF_DIR")
-	if verifDir == "" {
-		verifDir = "."
-	}
-
+// RunPlan explores the plan on all cores (one shard process each), feeds the
+// violations to rep and returns the merged counters; herr != "" is a harness
+// error.
+func RunPlan(pl Plan, rep *kf.Reporter, budgetS int) (total Totals, herr string) {
 	scratch := os.Getenv("VERIF_SCRATCH")
 	if scratch == "" {
 		scratch, _ = os.MkdirTemp("/dev/shm", "concfs")
 		defer os.RemoveAll(scratch)
 	}
 
-	rep, err := kf.NewReporter(id, filepath.Join(verifDir, "known_findings.txt"), filepath.Join(verifDir, "replays"))
-	if err != nil {
-		fmt.Fprintln(os.Stderr, err)
-		os.Exit(2)
-	}
-
-	rep.Discover = os.Getenv("VERIF_DISCOVER") != ""
-
-	deadline := time.Now().Add(time.Duration(budget) * time.Second)
+	deadline := time.Now().Add(time.Duration(budgetS) * time.Second)
 	n := runtime.NumCPU()
 
 	if n > len(pl.Programs) {
@@ -476,8 +476,6 @@ func Main(id string, level string, build func(tier string) Plan, extra func(tier
 	var (
 		wg     sync.WaitGroup
 		mu     sync.Mutex
-		total  shardOut
-		herr   string
 		merged = map[string]bool{}
 	)
 
@@ -489,7 +487,7 @@ func Main(id string, level string, build func(tier string) Plan, extra func(tier
 		go func(i int) {
 			defer wg.Done()
 
-			of := filepath.Join(scratch, fmt.Sprintf("shard%d.json", i))
+			of := filepath.Join(scratch, fmt.Sprintf("%s-shard%d.json", pl.ID, i))
 			args := append([]string{}, os.Args[1:]...)
 			args = append(args, "-shard", fmt.Sprintf("%d/%d", i, n), "-out", of)
 			cmd := exec.Command(os.Args[0], args...)
@@ -575,6 +573,67 @@ func Main(id string, level string, build func(tier string) Plan, extra func(tier
 
 	wg.Wait()
 
+	if len(total.Samples) > 6 {
+		total.Samples = total.Samples[:6]
+	}
+
+	if total.MinBound == 1<<30 {
+		total.MinBound = -1
+	}
+
+	return total, herr
+}
+
+// Main is the entry point shared by the concurrent drivers. build returns the
+// plan for a tier. extra, if not nil, runs additional (sequential) parts and
+// merges into the reporter before evidence is written; it returns extra
+// coverage keys.
+func Main(id string, level string, build func(tier string) Plan, extra func(tier string, rep *kf.Reporter) (map[string]any, error)) {
+	MaybeShard(build)
+
+	tier := flag.String("tier", "quick", "")
+	_ = flag.String("id", id, "")
+	only := flag.String("only", "", "substring filter on program text")
+	flag.Parse()
+
+	pl := build(*tier)
+
+	if *only != "" {
+		var ps []Prog
+
+		for _, p := range pl.Programs {
+			if strings.Contains(p.String(), *only) {
+				ps = append(ps, p)
+			}
+		}
+
+		pl.Programs = ps
+	}
+
+	budget := 0
+	if b, err := strconv.Atoi(os.Getenv("VERIF_BUDGET_S")); err == nil {
+		budget = b
+	} else if *tier == "thorough" {
+		budget = 1200
+	} else {
+		budget = 240
+	}
+
+	verifDir := os.Getenv("VERIF_DIR")
+	if verifDir == "" {
+		verifDir = "."
+	}
+
+	rep, err := kf.NewReporter(id, filepath.Join(verifDir, "known_findings.txt"), filepath.Join(verifDir, "replays"))
+	if err != nil {
+		fmt.Fprintln(os.Stderr, err)
+		os.Exit(2)
+	}
+
+	rep.Discover = os.Getenv("VERIF_DISCOVER") != ""
+
+	total, herr := RunPlan(pl, rep, budget)
+
 	cov := map[string]any{}
 
 	if extra != nil {
@@ -595,18 +654,11 @@ func Main(id string, level string, build func(tier string) Plan, extra func(tier
 		os.Exit(2)
 	}
 
-	if len(total.Samples) > 6 {
-		total.Samples = total.Samples[:6]
-	}
-
 	if len(total.Samples) == 0 {
 		total.Samples = []any{"no program explored"}
 	}
 
 	exh := total.TimedOut == 0 && total.Horizon == 0
-	if total.MinBound == 1<<30 {
-		total.MinBound = -1
-	}
 
 	states, _ := cov["states"].(int)
 	trans, _ := cov["transitions"].(int)
@@ -616,29 +668,16 @@ func Main(id string, level string, build func(tier string) Plan, extra func(tier
 	cov["traces_validated_against_impl"] = trans + total.Executions
 	cov["evaluations"] = trans + total.Executions
 	cov["distinct_nontrivial"] = total.MultiOut + 1
-	cov["rule"] = "every schedule (lock-acquisition granularity, plus call boundaries) of each program with at most `bound` preemptions, executed on the real code under the controlled scheduler; states = distinct (program, results+final tree) outcomes; distinct_nontrivial = 1 + number of programs whose outcome depends on the schedule (>1 distinct outcome: the calls really collided)"
+	cov["rule"] = CoverageRule
 	cov["samples"] = total.Samples
-	cov["programs"] = total.Programs
-	cov["schedules_executed"] = total.Executions
-	cov["deadlocked_schedules"] = total.Deadlocks
-	cov["horizon_cut"] = total.Horizon
-	cov["programs_fully_explored_unbounded"] = total.Unbounded
-	cov["programs_timed_out"] = total.TimedOut
-	cov["preemption_bound"] = pl.Bound
-	cov["min_bound_completed"] = total.MinBound
-	cov["max_scheduling_points"] = total.MaxPoints
+	AddCoverage(cov, total, pl.Bound)
 	cov["exhaustive"] = exh
 	cov["known_findings_matched"] = rep.KnownMatched()
 
 	e := ev.Evidence{
 		PropertyID: id, Tier: *tier, Seed: ev.Seed(), Level: level, Coverage: cov,
-		Assumptions: []string{
-			"scheduling points: before every Lock/RLock of memfs/orefafs/memidm mutexes (writer announcement and acquisition separately) and at call boundaries; complete for data-race-free executions (C08 checks race freedom on the same schedules)",
-			"sync.RWMutex model: a writer that has announced itself blocks new readers; a parked thread has not yet called the lock operation",
-			"map iteration order fixed to ascending keys; random part of temp names 0,0,1,1,... (forced collisions)",
-			"atomic operations (umask, id counter) are not scheduling points",
-		},
-		Violations: rep.NewCount(),
+		Assumptions: Assumptions,
+		Violations:  rep.NewCount(),
 	}
 
 	_ = ev.Write(filepath.Join(verifDir, "evidence", id+".json"), e)
@@ -647,6 +686,30 @@ func Main(id string, level string, build func(tier string) Plan, extra func(tier
 		id, total.Programs, total.Executions, total.Deadlocks, total.Unbounded, total.TimedOut, total.MinBound, total.MaxPoints, total.MultiOut)
 
 	os.Exit(code)
+}
+
+// CoverageRule describes how schedules are enumerated and counted.
+const CoverageRule = "every schedule (lock-acquisition granularity, plus call boundaries) of each program with at most `bound` preemptions, executed on the real code under the controlled scheduler; states = distinct (program, results+final tree) outcomes; distinct_nontrivial = 1 + number of programs whose outcome depends on the schedule (>1 distinct outcome: the calls really collided)"
+
+// Assumptions of every scheduler-based check.
+var Assumptions = []string{
+	"scheduling points: before every Lock/RLock of memfs/orefafs/memidm mutexes (writer announcement and acquisition separately) and at call boundaries; complete for data-race-free executions (C08 checks race freedom on the same schedules)",
+	"sync.RWMutex model: a writer that has announced itself blocks new readers; a parked thread has not yet called the lock operation",
+	"map iteration order fixed to ascending keys; random part of temp names 0,0,1,1,... (forced collisions)",
+	"atomic operations (umask, id counter) are not scheduling points",
+}
+
+// AddCoverage writes the schedule-exploration counters into cov.
+func AddCoverage(cov map[string]any, total Totals, bound int) {
+	cov["programs"] = total.Programs
+	cov["schedules_executed"] = total.Executions
+	cov["deadlocked_schedules"] = total.Deadlocks
+	cov["horizon_cut"] = total.Horizon
+	cov["programs_fully_explored_unbounded"] = total.Unbounded
+	cov["programs_timed_out"] = total.TimedOut
+	cov["preemption_bound"] = bound
+	cov["min_bound_completed"] = total.MinBound
+	cov["max_scheduling_points"] = total.MaxPoints
 }
 
 func tail(s string, n int) string {
